@@ -29,13 +29,15 @@ def parse_op(text):
 
 
 def op_text(op):
-    """the operation as the model sees it: rows as the server's geofilter hands them to the calculator"""
+    """the operation as the model sees it: rows as the server's geofilter hands them to the calculator (q["cand_acc"] /
+    q["cand_egr"], when present: the stops inside the straight-line radius of the walking maximum -- only those are asked about)"""
     if op[0] == "route":
         _, q, alt, acc, egr = op
-        return "route %s %d %s %s" % (gen.q_text(q), 1 if alt else 0, gen.rows_text(l3.effective_rows(acc, q["maxacc"])),
-                                      gen.rows_text(l3.effective_rows(egr, q["maxegr"])))
+        return "route %s %d %s %s" % (gen.q_text(q), 1 if alt else 0, gen.rows_text(l3.effective_rows(acc, q["maxacc"], q.get("cand_acc"))),
+                                      gen.rows_text(l3.effective_rows(egr, q["maxegr"], q.get("cand_egr"))))
     _, q, rows = op
-    return "access %s %s" % (gen.q_text(q), gen.rows_text(l3.effective_rows(rows, q["maxacc"] if q["fwd"] else q["maxegr"])))
+    return "access %s %s" % (gen.q_text(q), gen.rows_text(l3.effective_rows(rows, q["maxacc"] if q["fwd"] else q["maxegr"],
+                                                                              q.get("cand_acc") if q["fwd"] else q.get("cand_egr"))))
 
 
 def to_l2_format(op, line):
@@ -73,6 +75,8 @@ def serve_dataset(args):
     lines, raws = [], []
     info = dict(alive=True, exit=None)
     stub = l3.OsrmStub()
+    if getattr(ds, "lon_off", None):
+        stub.set_layout(ds)          # stops placed by hand (near the pre-filter radius): ids from the dataset's own coordinates
     stub.fraction = bool(opts.get("fraction"))        # durations / distances served as t - 0.8 (the server takes the ceiling)
     srv = None
     try:
@@ -146,6 +150,12 @@ def l3_batch(seed, count, nq, driver, outdir, binary=None, profiles=("opt", "loo
         prof["pempty"] = 0.02
         r = rng.fork()
         ds = gen.gen_dataset(r, prof)
+        # every fifth directory: the stops lie just inside (even ids) and just outside (odd ids) the straight-line radius the
+        # server derives from a 60 s walking maximum (5 km/h: 83.3 m) -- the router stub offers ALL of them within 50 s, the
+        # server must ask about the inside ones only; with any larger maximum of the request set every stop is inside
+        near = (i % 5 == 4) and len(ds.nodes) >= 2
+        if near:
+            l3.set_near_radius(ds, 60)
         # Int16 fields of the node files, distances of the path JSON
         ops = []
         for qi, (q, acc, egr) in enumerate(l3._gen_queries(gen, r, ds, prof, nq)):
@@ -178,6 +188,20 @@ def l3_batch(seed, count, nq, driver, outdir, binary=None, profiles=("opt", "loo
                     q[key] = r.choice(ts)
             if q["maxtr"] == MAX_INT and r.chance(0.5):
                 q["maxtr"] = 1200
+            if near:
+                # the router offers every stop of its table within 50 s; every second request asks for a 60 s maximum
+                acc = [(n, min(t, 50), m) for (n, t, m) in acc]
+                egr = [(n, min(t, 50), m) for (n, t, m) in egr]
+                if qi % 2 == 0:
+                    q["maxacc"] = q["maxegr"] = 60
+                for key, ck, lat in (("maxacc", "cand_acc", l3.ORIGIN_LAT), ("maxegr", "cand_egr", l3.DEST_LAT)):
+                    if q[key] < 120:
+                        q[key] = 60
+                    inside, unclear = l3.radius_candidates(ds, q[key], 0, lat)
+                    if unclear:
+                        q[key] = 1200
+                        inside, unclear = l3.radius_candidates(ds, 1200, 0, lat)
+                    q[ck] = inside
             ops.append(("route", q, False, acc, egr))
             if r.chance(0.25):
                 ops.append(("route", q, True, acc, egr))
